@@ -162,6 +162,8 @@ def units(tier):
     us.append(('guderley', {'kind': 'gud'}))
     us.append(('ehep', {'kind': 'ehep'}))
     us.append(('mader', {'kind': 'mader'}))
+    us.append(('sdrz', {'kind': 'sdrz'}))
+    us += [('nohblackbox/%s/%d' % (c_, m_), {'kind': 'bbn', 'key': (c_, m_)}) for c_ in ('energy_noh_residual', 'pressure_noh_residual') for m_ in (0, 1, 2)]
     us += [('sedov/geometry=%d' % j_, {'kind': 'sedov', 'key': j_}) for j_ in (1, 2, 3)]
     return us
 
@@ -178,6 +180,12 @@ def run_unit(name, kind, key=None, case=None, tier='quick', pat=None, fam=None):
     if kind == 'mader':
         from props import mader_kit
         return mader_kit.unit_cj()
+    if kind == 'sdrz':
+        from props import sdrz_kit
+        return sdrz_kit.unit('C02')
+    if kind == 'bbn':
+        from props import bbnoh_kit
+        return bbnoh_kit.unit(key[0], key[1])
     if kind == 'sedov':
         from props import sedov_kit
         return sedov_kit.unit_shock('C02', key)
